@@ -356,6 +356,12 @@ fn configs(prop: &'static str, tier: Tier) -> Vec<Rl> {
         if tier == Tier::Quick && window == WindowType::SlidingCounter {
             v.push(Rl { prop, window, limit: 2, timeout: 10, callers: 4, max_ticks: 11, max_drops: 0, late_ticks: 0, depth: Some(18) });
         }
+        // thorough: every window type over four and a half periods, three callers, no drops
+        if tier == Tier::Thorough {
+            for (limit, timeout) in [(1usize, 10u64), (2, 10), (1, 40), (2, 40)] {
+                v.push(Rl { prop, window, limit, timeout, callers: 3, max_ticks: 18, max_drops: 0, late_ticks: 0, depth: Some(26) });
+            }
+        }
         // a late executor: waiters woken for the next window are polled up to two ticks late
         // (the decided-within-timeout clause presupposes prompt polling and is not judged here)
         for timeout in tier.pick(vec![100u64], vec![40, 100]) {
